@@ -1227,7 +1227,7 @@ std::string eval_macro_callback(
     // running inside the VM and thus cannot give way for the evaluate_expression method.
     // ToDo: Fix "edge case" where the user uses a running VM to preprocess a file that contains __EVAL to not break the SQF-VM execution.
     auto res = runtime.evaluate_expression(params[0], success, false);
-    return success ? res.data()->to_string_sqf() : "";
+    return success && !res.empty() ? res.data()->to_string_sqf() : "";
 }
 // __COUNTER__ counts per runtime: instances living in one process must not see each other's count
 namespace
